@@ -40,7 +40,7 @@ type c05Aux struct {
 	Typ  byte    // A c C s S i I f Z H B
 	Sub  byte    // element type of a B array
 	Ints []int64 // numeric value(s); floats as IEEE-754 bit patterns
-	Text []byte  // payload of Z / H
+	Text []byte  // payload of Z; for H the byte array the value denotes (in the file: its hex digits)
 }
 
 type c05Sem struct {
@@ -132,8 +132,14 @@ func c05SpecAux(b []byte, a c05Aux) []byte {
 	switch a.Typ {
 	case 'A', 'c', 'C', 's', 'S', 'i', 'I', 'f':
 		b = c05PutLE(b, uint64(a.Ints[0]), c05ElemWidth(a.Typ)) // two's complement: low bytes of the value
-	case 'Z', 'H':
+	case 'Z':
 		b = append(b, a.Text...)
+		b = append(b, 0)
+	case 'H':
+		// §4.2.4: "H  Hex-formatted byte array: hex digits, NUL-terminated"; a.Text is the byte array the value denotes
+		for _, x := range a.Text {
+			b = append(b, "0123456789ABCDEF"[x/16], "0123456789ABCDEF"[x%16])
+		}
 		b = append(b, 0)
 	case 'B':
 		b = append(b, a.Sub)
@@ -580,9 +586,14 @@ func c05GenAux(rnd *Rand, t byte, bigOK bool) c05Aux {
 			n = rnd.rng(200, 5000)
 		}
 		if t == 'H' {
-			n &^= 1
+			// the value of an H field is a byte array: any bytes, zero bytes included
+			a.Text = rnd.bytes(n)
+			if n > 0 && rnd.coin(1, 3) {
+				a.Text[rnd.intn(n)] = 0
+			}
+		} else {
+			a.Text = c05GenText(rnd, n, false)
 		}
-		a.Text = c05GenText(rnd, n, t == 'H')
 	case 'B':
 		a.Sub = c05ArrTypes[rnd.intn(len(c05ArrTypes))]
 		n := rnd.pick([]int{0, 0, 1, 2, 3, 7, 8, 9, 40})
@@ -644,6 +655,21 @@ func c05GenRec(rnd *Rand, nrefs int, kind int, target int) *c05Sem {
 		return s
 	}
 	s.Cigar = c05GenCigar(rnd, c05GenNCigar(rnd, kind == 3))
+	if kind != 3 && nrefs > 0 && rnd.coin(1, 8) {
+		// a MAPPED record whose CIGAR consumes no reference (only I, S, H, P), placed on a bin boundary: Record.Bin
+		// counts it as one base long, so the bin is that of [pos, pos+1) and not of the tile before
+		s.Flags &^= 4
+		if s.Ref < 0 {
+			s.Ref = rnd.intn(nrefs)
+		}
+		shift := uint(rnd.pick([]int{14, 14, 14, 17, 20, 23, 26}))
+		s.Pos = rnd.rng(1, (1<<29-1)>>shift)<<shift - rnd.pick([]int{0, 0, 0, 1})
+		n := rnd.rng(1, 4)
+		s.Cigar = make([][2]int, n)
+		for i := range s.Cigar {
+			s.Cigar[i] = [2]int{rnd.rng(1, 50), rnd.pick([]int{1, 4, 5, 6})}
+		}
+	}
 	c05SetSeq(rnd, s, rnd.pick([]int{0, 1, 2, 3, 4, 5, 31, 32, 33, 100, 101, rnd.rng(0, 300)}))
 	switch kind {
 	case 1:
@@ -881,6 +907,15 @@ func c05Region(off int, s *c05Sem) string {
 	case p < 32+len(s.Name)+1+4*len(s.Cigar)+(len(s.Codes)+1)/2+len(s.Codes):
 		return "qual"
 	}
+	// which aux field of the specification's encoding holds the byte
+	q := off - 4 - (32 + len(s.Name) + 1 + 4*len(s.Cigar) + (len(s.Codes)+1)/2 + len(s.Codes))
+	for _, a := range s.Aux {
+		n := len(c05SpecAux(nil, a))
+		if q < n {
+			return "aux." + string(rune(a.Typ))
+		}
+		q -= n
+	}
 	return "aux"
 }
 
@@ -1070,7 +1105,7 @@ func c05ShowValue(a sam.Aux) string {
 		return "Z:" + hexs([]byte(v))
 	case []byte:
 		if a.Type() == 'H' {
-			return "H:" + hexs(v)
+			return "H:" + hexs([]byte(fmt.Sprintf("%X", v))) // the digit text the value is written as
 		}
 		return fmt.Sprintf("B:C:%d:%s", len(v), join(len(v), func(i int) int64 { return int64(v[i]) }))
 	case []int8:
@@ -1183,21 +1218,49 @@ func c05RunFile(c *ctx, f *c05File, d *Driver, impl *[]string) {
 		if sizes[i] < 600 {
 			in.Record = f.expected[i].args()
 		}
-		if off+len(want) > len(raw) {
+		// the record as the writer delimited it (its own block_size), so that one wrong record does not shift the rest
+		gotLen := len(want)
+		if off+4 <= len(raw) {
+			if bs := int(int32(binary.LittleEndian.Uint32(raw[off:]))); bs >= 32 && off+4+bs <= len(raw) {
+				gotLen = 4 + bs
+			}
+		}
+		if off+gotLen > len(raw) || gotLen < 36 {
 			r.fail("c05.bytes.short", "the file ends before this record", in)
 			return
 		}
-		got := raw[off : off+len(want)]
-		off += len(want)
+		got := raw[off : off+gotLen]
+		off += gotLen
 		bin := binary.LittleEndian.Uint16(got[14:16])
-		for k := range want {
+		// the fields first (the first differing one names the signature), the block size last
+		diff := -1
+		for k := 4; k < len(want) && k < len(got); k++ {
 			if k == 14 || k == 15 {
 				continue
 			}
 			if got[k] != want[k] {
-				r.fail("c05.bytes.spec."+c05Region(k, s), fmt.Sprintf("byte %d of the record is %#02x, the specification encoder gives %#02x", k, got[k], want[k]), in)
+				diff = k
 				break
 			}
+		}
+		if diff < 0 && len(got) != len(want) {
+			diff = len(got)
+			if len(want) < diff {
+				diff = len(want)
+			}
+		}
+		if diff < 0 && !bytes.Equal(got[:4], want[:4]) {
+			diff = 0
+		}
+		if diff >= 0 {
+			g, w := "(end)", "(end)"
+			if diff < len(got) {
+				g = fmt.Sprintf("%#02x", got[diff])
+			}
+			if diff < len(want) {
+				w = fmt.Sprintf("%#02x", want[diff])
+			}
+			r.fail("c05.bytes.spec."+c05Region(diff, s), fmt.Sprintf("byte %d of the record is %s, the specification encoder gives %s (record of %d bytes, specification %d)", diff, g, w, len(got), len(want)), in)
 		}
 		nontrivial := len(s.Codes) > 0 || len(s.Aux) > 0 || len(s.Cigar) > 0
 		r.eval(fmt.Sprintf("rec:%x", c05Fnv(want)), nontrivial)
@@ -1358,6 +1421,20 @@ func c05HistRec(r *Result, s *c05Sem) {
 		if c[0] >= 1<<28-3 {
 			r.hist("cigar.len~2^28")
 			break
+		}
+	}
+	if s.Flags&4 == 0 && len(s.Cigar) > 0 && s.Ref >= 0 {
+		noRef := true
+		for _, c := range s.Cigar {
+			if c[1] != 1 && c[1] != 4 && c[1] != 5 && c[1] != 6 {
+				noRef = false
+			}
+		}
+		if noRef {
+			r.hist("cigar.mapped-consumes-no-reference")
+			if s.Pos > 0 && s.Pos%16384 == 0 {
+				r.hist("cigar.mapped-consumes-no-reference@16KiB-boundary")
+			}
 		}
 	}
 	for _, a := range s.Aux {
@@ -1546,6 +1623,7 @@ func c05ErrName(err error) string {
 		{"invalid block size", "err:blocksize"}, {"invalid read name length", "err:readnamelen"},
 		{"invalid sequence length", "err:seqlen"}, {"mate reference id out of range", "err:materefrange"},
 		{"reference id out of range", "err:refrange"}, {"no zero", "err:auxnozero"}, {"zero in tag", "err:auxzerointag"},
+		{"odd number of digits", "err:auxhexodd"}, {"invalid hex data", "err:auxhexdigit"},
 		{"truncated aux array header", "err:auxarrayhdr"}, {"truncated aux data", "err:auxtruncated"},
 		{"unrecognised array element type", "err:auxarrayelem"},
 		{"invalid array length", "err:auxarraylen"}, {"unrecognised optional field type", "err:auxtype"},
@@ -1569,7 +1647,7 @@ func c05Mutate(rnd *Rand, recs [][]byte, nrefs int) ([]byte, string) {
 	auxOff := 32 + lname + 4*ncig + (lseq+1)/2 + lseq
 	setSize := func() { binary.LittleEndian.PutUint32(b, uint32(len(b)-4)) }
 	kind := ""
-	switch m := rnd.intn(18); m {
+	switch m := rnd.intn(21); m {
 	case 0:
 		kind = "truncate-stream"
 	case 1:
@@ -1645,6 +1723,22 @@ func c05Mutate(rnd *Rand, recs [][]byte, nrefs int) ([]byte, string) {
 		} else {
 			body[rnd.intn(len(body))] ^= 0x10
 		}
+	case 18:
+		kind = "aux-H-odd-digits"
+		b = append(b, 'X', 'Q', 'H')
+		b = append(b, []byte("1AE")[:rnd.pick([]int{1, 3})]...)
+		b = append(b, 0)
+		setSize()
+	case 19:
+		kind = "aux-H-not-a-digit"
+		b = append(b, 'X', 'Q', 'H', '1', byte(rnd.pick([]int{'G', 'g', ' ', '/', ':', '@', '`', 0xff})), 0)
+		setSize()
+	case 20:
+		kind = "aux-H-lower-case-digits"
+		b = append(b, 'X', 'Q', 'H')
+		b = append(b, []byte("1ae3ff0a")[:rnd.pick([]int{0, 2, 4, 8})]...)
+		b = append(b, 0)
+		setSize()
 	case 17:
 		kind = "block_size"
 		binary.LittleEndian.PutUint32(b, uint32(int32(rnd.pick([]int{0, -1, math.MinInt32, len(body) - 1, len(body) + 1, len(body) + 100000}))))
